@@ -9,8 +9,12 @@ func (rt *runtime) cmplEvaluateNodeProgram(node *nodeProgram, eval bool) Value {
 		rt.enterGlobalScope()
 		defer rt.leaveScope()
 	}
+	// The bindings declared by eval code can be deleted (10.4.2, 10.5 configurableBindings)
+	wasEval := rt.scope.eval
+	rt.scope.eval = eval
 	rt.cmplFunctionDeclaration(node.functionList)
 	rt.cmplVariableDeclaration(node.varList)
+	rt.scope.eval = wasEval
 	rt.scope.frame.file = node.file
 	value := rt.cmplEvaluateNodeStatementList(node.body)
 	if value.isEmpty() {
